@@ -643,6 +643,7 @@ run_s2(void *arg)
 typedef struct s3arg {
 	int m, M;      // RECONNMINT, RECONNMAXT
 	int at_dialer; // set the options on the dialer instead of the socket
+	int outage;    // > 0: every loss is a refusing period of this many ms (dozens of failed dials in a row)
 } s3arg;
 
 static char s3_path[108];
@@ -713,8 +714,10 @@ run_s3(void *arg)
 	int                   bound = x->m > x->M ? x->m : x->M;
 	int                   nloss = vx_is_thorough() ? 4 : 3;
 	int                   mode[4] = { 0, 0, 0, 0 };
+	if (x->outage)
+		nloss = 2;
 	for (int i = 0; i < nloss; i++)
-		mode[i] = vs_choose(VK_ENV, LM_N);
+		mode[i] = x->outage ? LM_REFUSED : vs_choose(VK_ENV, LM_N);
 	int endmode = vs_choose(VK_ENV, 3); // dialer close: connected / back-off / sock close
 	vs_random_seed = seeds[seed];
 
@@ -789,7 +792,7 @@ run_s3(void *arg)
 			close(ls);
 			close(fd);
 			vs_settle();
-			for (int k = 0; k < 3 * bound + 7; k++) {
+			for (int k = 0; k < (x->outage ? x->outage : 3 * bound + 7); k++) {
 				vs_sleep(0);
 				vs_settle();
 			}
@@ -1901,6 +1904,16 @@ main(int argc, char **argv)
 		snprintf(name, sizeof(name), "S3-redial-m%d-M%d-%s", s3[i].m, s3[i].M,
 		    s3[i].at_dialer ? "dialeropt" : "sockopt");
 		explore(name, run_s3, &s3[i], 0, 0, 0, 0);
+	}
+	// long outages: the peer refuses for 300 / 1000 ms (50 .. 300 failed dials in a row, the back-off grown
+	// to its ceiling long before), then listens again: the next attempt still comes within the larger time
+	{
+		static s3arg s3o[] = { { 3, 6, 1, 300 }, { 3, 6, 0, 300 }, { 5, 20, 1, 1000 }, { 4, 0, 0, 300 } };
+		for (int i = 0; i < (T ? 4 : 2); i++) {
+			snprintf(name, sizeof(name), "S3o-outage%d-m%d-M%d-%s", s3o[i].outage, s3o[i].m, s3o[i].M,
+			    s3o[i].at_dialer ? "dialeropt" : "sockopt");
+			explore(strdup(name), run_s3, &s3o[i], 0, 0, 0, 0);
+		}
 	}
 	{
 		static s5arg s5[12];
